@@ -204,7 +204,7 @@ Proof.
     + intros H. assert (Hr : a <= v <= b) by lia. assert (Hm : (v - a) mod s = 0) by lia.
       apply (mod_zero_iff (v - a) s Hs ltac:(lia)) in Hm. destruct Hm as (k & Hk & Hk').
       split; [|lia]. exists (Z.to_nat k). rewrite Z2Nat.id by lia.
-      assert (k <= k * s) by nia. lia.
+      assert (k * 1 <= k * s) by (apply Z.mul_le_mono_nonneg_l; lia). lia.
 Qed.
 
 Lemma expand_field_spec lo hi f v : 0 <= lo -> lo <= v <= hi -> wf_field f = true ->
@@ -220,7 +220,7 @@ Proof.
       lia.
     + intros H. assert (Hm : (v - lo) mod n = 0) by lia.
       apply (mod_zero_iff (v - lo) n Hn ltac:(lia)) in Hm. destruct Hm as (k & Hk & Hk').
-      exists (Z.to_nat k). rewrite Z2Nat.id by lia. assert (k <= k * n) by nia. lia.
+      exists (Z.to_nat k). rewrite Z2Nat.id by lia. assert (k * 1 <= k * n) by (apply Z.mul_le_mono_nonneg_l; lia). lia.
   - rewrite in_flat_map, existsb_exists. rewrite forallb_forall in Hwf.
     split; intros (it & Hin & H); exists it; (split; [assumption|]);
       apply (expand_item_spec lo hi it v Hlo Hv (Hwf it Hin)); assumption.
